@@ -7,6 +7,9 @@
 #include "defgen.h"
 
 uint32_t level_buf_size_for(int level, int cls, uint32_t extra);
+uint32_t deflate_bound(uint32_t len, int wrap);
+int wrap_to_ref(int gzip_flag);
+std::string fault_str(const FaultInfo &fi);
 
 static void exec_twin(const Json &plan, RunResult &rr, Hist &h)
 {
@@ -217,10 +220,156 @@ struct Reuse {
                 return true;
         }
 
+        // one-shot compression on a given (possibly used) stream; only the documented caller-set fields are assigned
+        bool stateless(struct isal_zstream *st, Slot *lbuf, const Params &p, const Json &j, std::vector<uint8_t> &out, std::vector<int64_t> &trace, const char *what, bool scrambled = false)
+        {
+                int lbcls = (int) ((uint64_t) j.geti("lbcls") % 5);
+                bool lbnull = p.level == 1 && j.geti("lbnull");
+                st->level = p.level;
+                st->level_buf = (p.level && !lbnull) ? lbuf->data : nullptr;
+                st->level_buf_size = (p.level && !lbnull) ? level_buf_size_for(p.level, lbcls, 0) : 0;
+                st->gzip_flag = p.wrap;
+                st->hist_bits = p.hb;
+                st->flush = j.geti("osfl") ? FULL_FLUSH : NO_FLUSH;
+                st->end_of_stream = j.geti("eos", 1) ? 1 : 0;
+                st->total_in = 0;
+                st->total_out = 0;
+                uint32_t bound = deflate_bound((uint32_t) p.data.size(), p.wrap) + 16;
+                uint64_t frac = (uint64_t) j.geti("ofrac", 256) % 257; // 256 = the whole bound
+                uint32_t cap = (uint32_t) ((uint64_t) bound * frac / 256);
+                Slot *si = g_arena.alloc(p.data.size(), PLACE_END, "os_in", 0, 1);
+                Slot *so = g_arena.alloc(cap, PLACE_END, "os_out", (uint64_t) plan.at("mem").geti("fill") + 77, 1);
+                if (!si || !so)
+                        return false;
+                memcpy(si->data, p.data.data(), p.data.size());
+                st->next_in = si->data;
+                st->avail_in = (uint32_t) p.data.size();
+                st->next_out = so->data;
+                st->avail_out = cap;
+                int ret = 0;
+                h.calls++;
+                if (GUARDED(gc, ret = isal_deflate_stateless(st))) {
+                        if (scrambled) // the same call on the same stream did not fault when the level buffer still held what the previous call left
+                                rr.fail("C15.garbage_dependence", strf("%s: %s - only after the caller overwrote the level buffer between two one-shot calls", what, fault_str(gc.fi).c_str()));
+                        else
+                                report_fault(rr, h, gc.fi, what);
+                        return false;
+                }
+                trace.push_back(ret);
+                if (ret == COMP_OK) { // after an error return neither counters nor buffer contents are promised
+                        uint32_t produced = cap - st->avail_out;
+                        out.assign(so->data, so->data + produced);
+                        trace.push_back(produced);
+                        trace.push_back(st->avail_in);
+                        trace.push_back(st->total_out);
+                        // whatever the stream was used for before, a call that reports success must have produced a stream of its input
+                        // (the wrapper header may legitimately be absent: has_wrap_hdr persists across one-shot calls by design)
+                        std::vector<uint8_t> dec;
+                        RefInflate ri;
+                        int w = wrap_to_ref(p.wrap);
+                        int rs = ref_inflate_all(w, out.data(), out.size(), dec, &ri);
+                        bool open_ok = st->flush == FULL_FLUSH && !j.geti("eos", 1);
+                        auto good = [&]() { return (rs == REF_DONE || (open_ok && rs == REF_NEED_MORE)) && dec == p.data; };
+                        if (!good() && (w == RW_GZIP || w == RW_ZLIB)) {
+                                dec.clear();
+                                rs = ref_inflate_all(w == RW_GZIP ? RW_GZIP_TRL : RW_ZLIB_TRL, out.data(), out.size(), dec, &ri);
+                        }
+                        if (!good()) {
+                                rr.fail("C10.oneshot_roundtrip", strf("%s: returned COMP_OK with %u bytes that do not decode to the %zu input bytes (reference status %d after %zu bytes; level %d wrap %d)", what, produced, p.data.size(), rs, dec.size(), p.level, p.wrap));
+                                return false;
+                        }
+                } else if (ret == STATELESS_OVERFLOW)
+                        COUNT("io.oneshot_overflow_then_reuse");
+                g_arena.release(si);
+                g_arena.release(so);
+                return true;
+        }
+        // how 4: a one-shot call (often one that overflows) followed by another one-shot call on the same stream and level buffer -
+        // with nothing, stateless_init, reset or init in between - must give what a fresh stream gives
+        void run_oneshot_chain(uint64_t fill, const Params &a, const Params &b)
+        {
+                int between = (int) ((uint64_t) plan.geti("between") % 4);
+                Slot *s1 = g_arena.alloc(sizeof(struct isal_zstream), PLACE_END, "zstream_reused", fill + 1, 16);
+                Slot *l1 = g_arena.alloc(level_buf_size_for(3, 4, 0), PLACE_END, "level_buf_reused", fill + 2, 16);
+                Slot *s2 = g_arena.alloc(sizeof(struct isal_zstream), PLACE_END, "zstream_fresh", fill + 3, 16);
+                Slot *l2 = g_arena.alloc(level_buf_size_for(3, 4, 0), PLACE_END, "level_buf_fresh", fill + 4, 16);
+                if (!s1 || !l1 || !s2 || !l2)
+                        return;
+                struct isal_zstream *st1 = (struct isal_zstream *) s1->data, *st2 = (struct isal_zstream *) s2->data;
+                std::vector<uint8_t> oa, ob1, ob2;
+                std::vector<int64_t> ta, tb1, tb2;
+                if (GUARDED(gc, isal_deflate_stateless_init(st1))) {
+                        report_fault(rr, h, gc.fi, "isal_deflate_stateless_init");
+                        return;
+                }
+                if (!stateless(st1, l1, a, plan.at("a"), oa, ta, "isal_deflate_stateless (first use)"))
+                        return;
+                if (GUARDED(gc, {
+                            if (between == 1)
+                                    isal_deflate_stateless_init(st1);
+                            else if (between == 2)
+                                    isal_deflate_reset(st1);
+                            else if (between == 3)
+                                    isal_deflate_init(st1);
+                    })) {
+                        report_fault(rr, h, gc.fi, "re-initialisation between one-shot calls");
+                        return;
+                }
+                static const char *bnames[4] = { "mem.oneshot_reuse_without_init", "mem.oneshot_reuse_after_stateless_init", "mem.oneshot_reuse_after_reset", "mem.oneshot_reuse_after_init" };
+                COUNT(bnames[between]);
+                if (!stateless(st1, l1, b, plan.at("b"), ob1, tb1, "isal_deflate_stateless (reused stream)"))
+                        return;
+                isal_deflate_stateless_init(st2);
+                if (between == 0) {
+                        // Reused as is, the stream legitimately remembers the call sequence (a wrapper header already written): the
+                        // comparison is with the same two calls on another stream whose level buffer the caller overwrites in between -
+                        // the prior contents of the level buffer must not matter to a one-shot call.
+                        std::vector<uint8_t> oa2;
+                        std::vector<int64_t> ta2;
+                        if (!stateless(st2, l2, a, plan.at("a"), oa2, ta2, "isal_deflate_stateless (first use, second stream)"))
+                                return;
+                        Rng g((uint64_t) plan.at("mem").geti("fill") + 991, "reuse.scramble");
+                        for (size_t i = 0; i < l2->len; i += 8) {
+                                uint64_t v = g.u64();
+                                memcpy(l2->data + i, &v, std::min<size_t>(8, l2->len - i));
+                        }
+                        COUNT("mem.level_buf_overwritten_between_oneshot_calls");
+                        if (ta2 != ta || oa2 != oa) {
+                                rr.fail("C15.garbage_dependence", "the same first one-shot call on two freshly initialised streams gives different results");
+                                return;
+                        }
+                        if (!stateless(st2, l2, b, plan.at("b"), ob2, tb2, "isal_deflate_stateless (reused stream, level buffer overwritten)", true))
+                                return;
+                        if (tb1 != tb2 || ob1 != ob2)
+                                rr.fail("C15.garbage_dependence", strf("one-shot compression of %zu bytes (level %d wrap %d) on a stream reused as is after a previous one-shot call (level %d, ret %lld): returns %lld with %zu bytes when the level buffer still holds what that call left, %lld with %zu bytes when the caller overwrote the level buffer in between", b.data.size(), b.level, b.wrap, a.level, (long long) (ta.empty() ? 0 : ta[0]), (long long) (tb1.empty() ? 0 : tb1[0]), ob1.size(), (long long) (tb2.empty() ? 0 : tb2[0]), ob2.size()));
+                        h.rec("reuse_end", { (int64_t) ob1.size(), (int64_t) ob2.size(), (int64_t) hash_bytes(ob1.data(), ob1.size()), ta.empty() ? 0 : ta[0], tb1.empty() ? 0 : tb1[0] });
+                        h.sigmix((uint64_t) (ta.empty() ? 0 : ta[0] + 10) << 20 ^ (uint64_t) between << 12);
+                        return;
+                }
+                if (!stateless(st2, l2, b, plan.at("b"), ob2, tb2, "isal_deflate_stateless (fresh stream)"))
+                        return;
+                h.rec("reuse_end", { (int64_t) ob1.size(), (int64_t) ob2.size(), (int64_t) hash_bytes(ob1.data(), ob1.size()), ta.empty() ? 0 : ta[0], tb1.empty() ? 0 : tb1[0] });
+                h.sigmix((uint64_t) (ta.empty() ? 0 : ta[0] + 10) << 20 ^ (uint64_t) between << 12);
+                if (tb1 != tb2 || ob1 != ob2) {
+                        size_t k = 0;
+                        while (k < ob1.size() && k < ob2.size() && ob1[k] == ob2[k])
+                                k++;
+                        static const char *bt[4] = { "reused as is", "re-initialised with isal_deflate_stateless_init", "reset", "re-initialised with isal_deflate_init" };
+                        rr.fail("C15.reuse_differs", strf("one-shot compression of %zu bytes (level %d wrap %d) on a stream %s after a previous one-shot call (level %d, ret %lld) returns %lld with %zu bytes, on a fresh stream %lld with %zu bytes; first difference at output byte %zu", b.data.size(), b.level, b.wrap, bt[between], a.level, (long long) (ta.empty() ? 0 : ta[0]), (long long) (tb1.empty() ? 0 : tb1[0]), ob1.size(), (long long) (tb2.empty() ? 0 : tb2[0]), ob2.size(), k));
+                }
+        }
+
         void run()
         {
                 uint64_t fill = (uint64_t) plan.at("mem").geti("fill");
-                int how = (int) ((uint64_t) plan.geti("how") % 4); // 0 deflate_reset, 1 deflate_init again, 2 inflate_reset, 3 inflate_init again
+                int how = (int) ((uint64_t) plan.geti("how") % 5); // 0 deflate_reset, 1 deflate_init again, 2 inflate_reset, 3 inflate_init again, 4 one-shot chain
+                if (how == 4) {
+                        Params a = params(plan.at("a")), b = params(plan.at("b"));
+                        h.rec("reuse", { how, a.level, b.level, (int64_t) a.data.size(), (int64_t) b.data.size(), plan.geti("between") });
+                        h.unusual++;
+                        run_oneshot_chain(fill, a, b);
+                        return;
+                }
                 Params a = params(plan.at("a")), b = params(plan.at("b"));
                 b.abandon = false;
                 h.rec("reuse", { how, a.level, b.level, (int64_t) a.data.size(), (int64_t) b.data.size(), a.abandon });
@@ -365,11 +514,14 @@ static Json gen_reuse(Rng &r0, const std::string &focus, int tier)
 {
         Rng r(r0.u64(), "reuse.plan");
         Json p = Json::obj();
-        p.set("prof", "reuse").set("focus", focus).set("how", (int) r.below(4)).set("ichunk", (int) r.logsize(5000));
+        p.set("prof", "reuse").set("focus", focus).set("how", focus == "C10" ? 4 : (int) r.below(5)).set("ichunk", (int) r.logsize(5000)).set("between", r.chance(1, 2) ? 0 : (int) r.below(4));
         for (const char *nm : { "a", "b" }) {
                 Json j = Json::obj();
                 j.set("level", (int) r.below(4)).set("wrap", (int) r.below(5)).set("hb", (int) (r.chance(1, 2) ? 0 : 9 + r.below(7))).set("fl", (int) r.below(4));
                 j.set("data", gen_data_spec(r, r.chance(1, 6) ? 120000 : 6000, 0)).set("abandon", (int) r.chance(1, 3));
+                // one-shot chain only: level-buffer size class, NULL level buffer at level 1, flush, end_of_stream, output space as a fraction of the bound
+                j.set("lbcls", (int) (r.chance(1, 2) ? 0 : r.below(5))).set("lbnull", (int) r.chance(1, 4)).set("osfl", (int) r.chance(1, 4)).set("eos", (int) !r.chance(1, 5));
+                j.set("ofrac", (int) (r.chance(1, 2) ? 256 : r.below(257)));
                 Json ch = Json::arr();
                 for (int k = (int) r.below(5); k > 0; k--)
                         ch.push((uint32_t) r.logsize(60000));
